@@ -1412,13 +1412,36 @@ func c04RunSeq(s *c04Seq) *c04Failure {
 	var acceptedTotal int64
 	var knownRows []c04Row
 	opaqueAccepted := false
+	opaqueSent := false
+	// crash classifies a dead server process. Two open findings kill the process
+	// from a flush goroutine; structure-aware requests avoid their shapes by
+	// construction, but a byte-mutated body that was (or is being) accepted can
+	// still carry an empty column name or flip the type of a '_' column.
+	crash := func(detail string) *c04Failure {
+		if opaqueSent {
+			switch {
+			case strings.Contains(detail, "index out of range [0] with length 0") && strings.Contains(detail, "getSchema") && verifkit.Excluded(kfC04EmptyColumn):
+				verifkit.CountExcluded(kfC04EmptyColumn)
+				verifkit.Class("tolerated-crash-of-open-finding")
+				return nil
+			case strings.Contains(detail, "interface conversion") && strings.Contains(detail, "mergeBatches") && verifkit.Excluded(kfC04UnderscoreFlip):
+				verifkit.CountExcluded(kfC04UnderscoreFlip)
+				verifkit.Class("tolerated-crash-of-open-finding")
+				return nil
+			}
+		}
+		return &c04Failure{"process-crash", detail}
+	}
 	for i, r := range s.Reqs {
+		if r.Opaque {
+			opaqueSent = true
+		}
 		resp, died, diag := child.do(c04Cmd{Op: "req", Method: r.Method, Path: r.Path, Headers: r.Headers, Body: r.Body})
 		if died {
-			return &c04Failure{"process-crash", fmt.Sprintf("request #%d (%s) killed the server process: %s", i, r.Desc, diag)}
+			return crash(fmt.Sprintf("request #%d (%s) killed the server process: %s", i, r.Desc, diag))
 		}
 		if se, crashed, cdiag := child.panicSeen(); crashed {
-			return &c04Failure{"process-crash", fmt.Sprintf("request #%d (%s) -> %d, then the server process died: %s", i, r.Desc, resp.Status, cdiag)}
+			return crash(fmt.Sprintf("request #%d (%s) -> %d, then the server process died: %s", i, r.Desc, resp.Status, cdiag))
 		} else if se != "" {
 			// Open finding C04-parquet-import-nil-deref: arrow-go's reader panics on
 			// some corrupt files; only byte-mutated / raw bodies can reach it.
@@ -1481,10 +1504,10 @@ func c04RunSeq(s *c04Seq) *c04Failure {
 	// forced flush through the admin endpoint (runs under the same middleware), then quiesce
 	resp, died, diag := child.do(c04Cmd{Op: "req", Method: "POST", Path: "/api/v1/write/line-protocol/flush"})
 	if died {
-		return &c04Failure{"process-crash", "final flush killed the server process: " + diag}
+		return crash("final flush killed the server process: " + diag)
 	}
 	if se, crashed, cdiag := child.panicSeen(); crashed {
-		return &c04Failure{"process-crash", "server process died after the final flush: " + cdiag}
+		return crash("server process died after the final flush: " + cdiag)
 	} else if se != "" {
 		return &c04Failure{"handler-panic", fmt.Sprintf("final flush -> %d: panic recovered by the middleware: %s", resp.Status, c04PanicHead(se))}
 	}
@@ -1493,17 +1516,17 @@ func c04RunSeq(s *c04Seq) *c04Failure {
 	}
 	q, died, diag := child.do(c04Cmd{Op: "quiesce"})
 	if died {
-		return &c04Failure{"process-crash", "server process died while flushing buffered rows: " + diag}
+		return crash("server process died while flushing buffered rows: " + diag)
 	}
 	if q.Mode != "exact" {
 		verifkit.Class("quiesce-" + q.Mode)
 	}
 	_, died, diag = child.do(c04Cmd{Op: "close"})
 	if died {
-		return &c04Failure{"process-crash", "server process died during Close(): " + diag}
+		return crash("server process died during Close(): " + diag)
 	}
 	if se, crashed, cdiag := child.panicSeen(); crashed {
-		return &c04Failure{"process-crash", "server process died after Close(): " + cdiag}
+		return crash("server process died after Close(): " + cdiag)
 	} else if se != "" {
 		return &c04Failure{"handler-panic", "panic output after Close(): " + c04PanicHead(se)}
 	}
